@@ -137,22 +137,22 @@ struct expected {
     }
 
     template <typename F>
-    [[nodiscard]] constexpr auto and_then(F&& f) && requires(is_constructible_v<E, decltype(error())>)
+    [[nodiscard]] constexpr auto and_then(F&& f) && requires(is_constructible_v<E, decltype(etl::move(error()))>)
     {
-        if (has_value()) { return etl::invoke(etl::forward<F>(f), **this); }
-        using U = remove_cvref_t<invoke_result_t<F, decltype(**this)>>;
-        return U(unexpect, error());
+        if (has_value()) { return etl::invoke(etl::forward<F>(f), etl::move(**this)); }
+        using U = remove_cvref_t<invoke_result_t<F, decltype(etl::move(**this))>>;
+        return U(unexpect, etl::move(error()));
     }
 
     template <typename F>
     [[nodiscard]] constexpr auto and_then(F&& f) const&
-        requires(is_constructible_v<E, decltype(etl::move(error()))>)
+        requires(is_constructible_v<E, decltype(error())>)
     {
         if (has_value()) {
-            return etl::invoke(etl::forward<F>(f), etl::move(**this));
+            return etl::invoke(etl::forward<F>(f), **this);
         }
-        using U = remove_cvref_t<invoke_result_t<F, decltype(etl::move(**this))>>;
-        return U(unexpect, etl::move(error()));
+        using U = remove_cvref_t<invoke_result_t<F, decltype(**this)>>;
+        return U(unexpect, error());
     }
 
     template <typename F>
@@ -175,22 +175,22 @@ struct expected {
     }
 
     template <typename F>
-    [[nodiscard]] constexpr auto or_else(F&& f) && requires(is_constructible_v<T, decltype(**this)>)
+    [[nodiscard]] constexpr auto or_else(F&& f) && requires(is_constructible_v<T, decltype(etl::move(**this))>)
     {
-        using G = remove_cvref_t<invoke_result_t<F, decltype(error())>>;
-        if (has_value()) { return G(etl::in_place, **this); }
-        return etl::invoke(etl::forward<F>(f), error());
+        using G = remove_cvref_t<invoke_result_t<F, decltype(etl::move(error()))>>;
+        if (has_value()) { return G(etl::in_place, etl::move(**this)); }
+        return etl::invoke(etl::forward<F>(f), etl::move(error()));
     }
 
     template <typename F>
     [[nodiscard]] constexpr auto or_else(F&& f) const&
-        requires(is_constructible_v<T, decltype(etl::move(**this))>)
+        requires(is_constructible_v<T, decltype(**this)>)
     {
-        using G = remove_cvref_t<invoke_result_t<F, decltype(etl::move(error()))>>;
+        using G = remove_cvref_t<invoke_result_t<F, decltype(error())>>;
         if (has_value()) {
-            return G(etl::in_place, etl::move(**this));
+            return G(etl::in_place, **this);
         }
-        return etl::invoke(etl::forward<F>(f), etl::move(error()));
+        return etl::invoke(etl::forward<F>(f), error());
     }
 
     template <typename F>
